@@ -15,6 +15,7 @@ inductive Ev
 
 inductive Op
   | start | resume | endBall | endGame | slam | setBip (n : Int) | drain (n : Nat) | extraBall | addPlayer
+  | addAccepted | addRejected | playerAdded | finish
   deriving DecidableEq, Repr
 
 structure St where
@@ -35,7 +36,7 @@ structure St where
 def setAt (f : Nat → Nat) (i v : Nat) : Nat → Nat := fun j => if j = i then v else f j
 
 def emit (st : St) (e : Ev) : St :=
-  { st with pc := (if e = .ged then none else some e), log := st.log ++ [(e, st.cur, st.balls st.cur)] }
+  { st with pc := some e, log := st.log ++ [(e, st.cur, st.balls st.cur)] }
 
 /-- the `balls_in_play` setter: clamp to 0..num_balls_known; going from >0 to 0 sets the end-of-ball event -/
 def setBipTo (st : St) (v : Int) : St :=
@@ -83,6 +84,18 @@ def resume (st : St) : Option St :=
   | some .geg => some (emit st .ged)
   | some .ged => none
 
+/-- the guards of `request_player_add` -/
+def addRefused (st : St) : Bool :=
+  st.ending || decide (st.players ≥ st.maxPlayers) || (decide (st.cur ≠ 0) && decide (st.balls st.cur > 1))
+
+/-- the asynchronous form of a player add: the request is accepted / refused now, the player appears later -/
+def stepAdd (st : St) : Op → Option St
+  | .addAccepted => if st.pc.isNone || addRefused st then none else some st
+  | .addRejected => if st.pc.isNone || !addRefused st then none else some st
+  | .playerAdded => if st.pc.isNone then none
+    else some { st with players := st.players + 1, cur := if st.cur = 0 then st.players + 1 else st.cur }
+  | _ => none
+
 def step (st : St) : Op → Option St
   | .start =>
     if st.pc.isSome then none
@@ -99,8 +112,13 @@ def step (st : St) : Op → Option St
   | .extraBall => if st.pc.isNone || st.cur = 0 then none else some { st with extra := setAt st.extra st.cur (st.extra st.cur + 1) }
   | .addPlayer =>
     if st.pc.isNone then none
-    else if st.ending || decide (st.players ≥ st.maxPlayers) || (decide (st.cur ≠ 0) && decide (st.balls st.cur > 1)) then some st
+    else if addRefused st then some st
     else some { st with players := st.players + 1, cur := if st.cur = 0 then st.players + 1 else st.cur }
+  | .addAccepted => stepAdd st .addAccepted
+  | .addRejected => stepAdd st .addRejected
+  | .playerAdded => stepAdd st .playerAdded
+  -- `_run` has returned: the mode stops and `machine.game` is cleared
+  | .finish => if st.pc = some .ged then some { st with pc := none } else none
 
 def run (st : St) : List Op → St
   | [] => st
@@ -141,6 +159,12 @@ def driverStep (st : St) (line : String) : St × String :=
   | ["slam"] => answer st (step st .slam)
   | ["extraball"] => answer st (step st .extraBall)
   | ["addplayer"] => answer st (step st .addPlayer)
+  | ["addaccepted"] => answer st (step st .addAccepted)
+  | ["addrejected"] => answer st (step st .addRejected)
+  | ["playeradded"] => answer st (step st .playerAdded)
+  | ["finish"] => match step st .finish with
+    | some st' => (st', "ok")
+    | none => (st, "not-enabled")
   | ["setbip", n] => match n.toInt? with
     | some v => answer st (step st (.setBip v))
     | none => (st, "bad-op")
